@@ -201,10 +201,14 @@ theorem good_chunks_consumed {σ : Type} (learnFile : σ → List (Event Nat Nat
   rw [learnChunksB2B_of_ne_nil _ _ _ _ (by simpa using hne)]
   exact good_chunks_consumed_loop learnFile ess hn w
 
-/-- **an EMPTY file list makes the binary-to-binary entry points raise `IOError`**
+/-- (definitional: `learnChunksB2B` is DEFINED to answer `noFile` on `[]`, after
+    ndl_parallel.pyx:68-87 / ndl_openmp.pyx:37-67 — the statement only names that
+    clause; C05 `no_chunk_file_raises` is the same statement)
+    **an EMPTY file list makes the binary-to-binary entry points raise `IOError`**
     (error code 3: `INITIAL_ERROR_CODE` is never overwritten), weights
-    untouched — this is why `ndl.ndl` raises on an event file with zero events
-    (`ndlCall`, C01 `ndl_call_empty_openmp`) -/
+    untouched.  That THIS is why `ndl.ndl` raises on an event file with zero
+    events is a theorem elsewhere: C01 `ndl_zero_events_rule` (`ndl.ndl`
+    assembled from `learnChunksB2B` calls equals `ndlCall` on zero events). -/
 theorem empty_file_list_raises {σ : Type} (learnFile : σ → List (Event Nat Nat) → σ) (w : σ) :
     learnChunksB2B Generated.kernelMagic Generated.kernelVersion learnFile [] w = (w, some .noFile) :=
   learnChunksB2B_nil _ _ learnFile w
@@ -251,5 +255,76 @@ example :
     (writeEvents 14159265 2263 .dedup [⟨[1, 2], [3]⟩, ⟨[4, 4], [5]⟩, ⟨[6], []⟩] 3 1).2 = .overflow ∧
     (writeEvents 14159265 2263 .dedup [⟨[1, 2], [3]⟩, ⟨[4, 4], [5]⟩, ⟨[6], []⟩] 0 4294967296).2 = .overflow := by
   decide +kernel
+
+/-- `kernel_reads_what_py_reads` applied in both directions on a concrete chunk
+    with FOREIGN header constants (7, 9) and a block of 1500 cues (beyond the
+    kernels' initial buffer of 1024): from the Python reader's success to the
+    kernels', and back -/
+example :
+    (∃ hist, decodeChunkKernel 7 9 (encodeChunk 7 9 [⟨List.range 1500, [3]⟩, ⟨[4], []⟩])
+      = .ok ([⟨List.range 1500, [3]⟩, ⟨[4], []⟩], hist)) ∧
+    decodeChunkPy 7 9 (encodeChunk 7 9 [⟨List.range 1500, [3]⟩, ⟨[4], []⟩])
+      = .ok [⟨List.range 1500, [3]⟩, ⟨[4], []⟩] := by
+  have hpy : decodeChunkPy 7 9 (encodeChunk 7 9 [⟨List.range 1500, [3]⟩, ⟨[4], []⟩])
+      = .ok [⟨List.range 1500, [3]⟩, ⟨[4], []⟩] := by decide +kernel
+  have hk := (kernel_reads_what_py_reads 7 9 _ _).mp hpy
+  exact ⟨hk, (kernel_reads_what_py_reads 7 9 _ _).mpr hk⟩
+
+/-- … and `kernel_rejects_what_py_rejects`: a chunk written with the legacy
+    with-frequency version is rejected by both readers with `badVersion` -/
+example :
+    decodeChunkKernel Generated.kernelMagic Generated.kernelVersion
+      (encodeChunk Generated.pyMagic Generated.pyVersionWithFreq [⟨[1], [2]⟩]) = .error .badVersion ∧
+    decodeChunkPy Generated.kernelMagic Generated.kernelVersion
+      (encodeChunk Generated.pyMagic Generated.pyVersionWithFreq [⟨[1], [2]⟩]) = .error .badVersion := by
+  have hk : decodeChunkKernel Generated.kernelMagic Generated.kernelVersion
+      (encodeChunk Generated.pyMagic Generated.pyVersionWithFreq [⟨[1], [2]⟩]) = .error .badVersion := by
+    decide +kernel
+  exact ⟨hk, (kernel_rejects_what_py_rejects _ _ _).2.mp hk⟩
+
+def exChunkA : List (Event Nat Nat) := [⟨[1, 2], [3]⟩, ⟨[4], []⟩]
+def exChunkB : List (Event Nat Nat) := [⟨[7], [0, 1]⟩]
+
+/-- (definitional — example data, not a property theorem) -/
+theorem exChunks_ok : ∀ es ∈ [exChunkA, exChunkB], es.length < 4294967296 ∧ Wf32 es := by
+  intro es hes
+  simp only [List.mem_cons, List.not_mem_nil, or_false] at hes
+  rcases hes with rfl | rfl
+  · exact ⟨by decide, wf32_of_bound 100 (by decide) _ (by decide)⟩
+  · exact ⟨by decide, wf32_of_bound 100 (by decide) _ (by decide)⟩
+
+/-- `good_chunks_consumed` ITSELF applied, two chunk files, ANY kernel event loop
+    `learnFile` and start value -/
+example (learnFile : Nat → List (Event Nat Nat) → Nat) (w : Nat) :
+    learnChunksB2B Generated.kernelMagic Generated.kernelVersion learnFile
+      ([exChunkA, exChunkB].map (encodeChunk Generated.pyMagic Generated.pyVersion)) w
+      = ([exChunkA, exChunkB].foldl learnFile w, none) :=
+  good_chunks_consumed learnFile [exChunkA, exChunkB] (by decide) exChunks_ok w
+
+/-- `bad_header_rejected_b2b` / `bad_header_rejected` / `bad_header_rejected_py`
+    ITSELF applied: a good chunk, then a chunk with the legacy version in its
+    header, then another good chunk — the entry points learn the first chunk
+    only and raise; the Python reader rejects the bad chunk -/
+example (learnFile : Nat → List (Event Nat Nat) → Nat) (w : Nat) :
+    (∃ e, learnChunksB2B Generated.kernelMagic Generated.kernelVersion learnFile
+      ([encodeChunk Generated.pyMagic Generated.pyVersion exChunkA] ++
+        (u32le Generated.kernelMagic ++ (u32le Generated.pyVersionWithFreq ++ [1, 0, 0, 0])) ::
+        [encodeChunk Generated.pyMagic Generated.pyVersion exChunkB]) w
+      = ([exChunkA].foldl learnFile w, some e)) ∧
+    (∃ e, learnChunks Generated.kernelMagic Generated.kernelVersion learnFile
+      ([encodeChunk Generated.pyMagic Generated.pyVersion exChunkA] ++
+        (u32le Generated.kernelMagic ++ (u32le Generated.pyVersionWithFreq ++ [1, 0, 0, 0])) ::
+        [encodeChunk Generated.pyMagic Generated.pyVersion exChunkB]) w
+      = ([exChunkA].foldl learnFile w, some e)) ∧
+    (∃ e, decodeChunkPy Generated.pyMagic Generated.pyVersion
+      (u32le Generated.kernelMagic ++ (u32le Generated.pyVersionWithFreq ++ [1, 0, 0, 0])) = .error e) := by
+  have hpre : List.Forall₂ (fun f es => ∃ h, decodeChunkKernel Generated.kernelMagic
+      Generated.kernelVersion f = .ok (es, h)) [encodeChunk Generated.pyMagic Generated.pyVersion exChunkA]
+      [exChunkA] :=
+    List.Forall₂.cons (written_chunks_are_complete exChunkA (by decide)
+      (wf32_of_bound 100 (by decide) _ (by decide))).2 List.Forall₂.nil
+  exact ⟨bad_header_rejected_b2b learnFile _ _ hpre _ _ (by decide) (by decide) (Or.inr (by decide)) _ _ w,
+    bad_header_rejected learnFile _ _ hpre _ _ (by decide) (by decide) (Or.inr (by decide)) _ _ w,
+    bad_header_rejected_py _ _ (by decide) (by decide) (Or.inr (by decide)) _⟩
 
 end Pyndl.C06
